@@ -95,6 +95,9 @@ fn code_of(r: Result<(), SlidingWindowError>) -> i128 {
 #[kani::proof]
 #[kani::unwind(2)]
 fn vq_c06_sliding_window_check() {
+    // a fresh window is the empty set without an edge (start of every history in verus/lemmas/C06.rs)
+    let fresh = SlidingWindow::default();
+    assert!(!has_edge(&fresh) && fresh.window == 0 && rep_inv(&fresh), "C06/sliding_window.default/is_empty");
     let w = any_window();
     let pn: u64 = kani::any();
     kani::assume(pn <= MAXV);
